@@ -208,3 +208,54 @@ Definition memN (s : N) (l : list N) : bool := existsb (N.eqb s) l.
    by replaying a live log record *)
 Definition recoverable (st : istate) : bool :=
   forallb (fun s => memN s (i_idxdur st) || memN s (i_walold st) || memN s (i_walcur st)) (i_files st).
+
+(* ---- memtable flush with its per-measurement skip, DROP MEASUREMENT as its steps, the volatile flags ---- *)
+(* Code mirrored (engine/shard.go): shard.commitSnapshot skips every measurement that carries the "deleting" mark
+   (droppedMst) while writeSnapshot removes the switched log files regardless; shard.DropMeasurement = set the mark, refuse
+   while replayingWal, ForceFlush (log switch, commit with the skip, log removal), remove the measurement's data files,
+   clear the mark; replayingWal is set by every (re)start and cleared when the log has been re-applied and flushed; the mark
+   lives in memory only. Data files hold what the commits wrote (x_files), so rows skipped by a commit are really gone
+   once their log is removed. Ghost fields: x_gone = the acknowledged batches whose log is removed, x_taint = the
+   measurements for which a drop began and was neither acknowledged nor (in the order that checks the replay flag first)
+   refused - they survive a crash, the mark does not.
+   early = true is the order of today's DropMeasurement (mark first, replay check second); early = false checks first.
+   clear = false is a refusal path that forgets to clear the mark. *)
+Definition keep_out (ms : list N) (b : batch) : batch := filter (fun c => negb (existsb (N.eqb (mst_of (fst c))) ms)) b.
+Record xstate := mkx {
+  x_files : list batch; x_gone : list batch; x_logs : list (list batch); x_nc : nat; x_open : list batch;
+  x_marks : list N; x_replaying : bool; x_taint : list N }.
+Inductive xop := XWrite (b : batch) | XSwitch | XCommit | XRemove
+               | XDropBegin (m : N) | XDropRefused (m : N) | XDropDone (m : N) | XCrash | XReplayDone.
+Definition memNb (m : N) (l : list N) : bool := existsb (N.eqb m) l.
+Definition xstep (early clear : bool) (st : xstate) (o : xop) : xstate :=
+  match o with
+  | XWrite b => mkx (x_files st) (x_gone st) (x_logs st) (x_nc st) (x_open st ++ [b]) (x_marks st) (x_replaying st) (x_taint st)
+  | XSwitch => mkx (x_files st) (x_gone st) (x_logs st ++ [x_open st]) (x_nc st) [] (x_marks st) (x_replaying st) (x_taint st)
+  | XCommit => if Nat.ltb (x_nc st) (length (x_logs st))
+               then mkx (x_files st ++ map (keep_out (x_marks st)) (nth (x_nc st) (x_logs st) [])) (x_gone st) (x_logs st) (S (x_nc st))
+                        (x_open st) (x_marks st) (x_replaying st) (x_taint st)
+               else st
+  | XRemove => match x_logs st with
+               | e :: r => if Nat.ltb 0 (x_nc st)
+                           then mkx (x_files st) (x_gone st ++ e) r (pred (x_nc st)) (x_open st) (x_marks st) (x_replaying st) (x_taint st)
+                           else st
+               | [] => st
+               end
+  | XDropBegin m => if x_replaying st && negb early then st
+                    else mkx (x_files st) (x_gone st) (x_logs st) (x_nc st) (x_open st) (m :: x_marks st) (x_replaying st) (m :: x_taint st)
+  | XDropRefused m => if x_replaying st && early && clear
+                      then mkx (x_files st) (x_gone st) (x_logs st) (x_nc st) (x_open st) (remove N.eq_dec m (x_marks st)) (x_replaying st)
+                               (remove N.eq_dec m (x_taint st))
+                      else st
+  | XDropDone m => if memNb m (x_marks st) && Nat.eqb (length (x_logs st)) 0 && negb (existsb (has_mst m) (x_open st))
+                   then mkx (map (keep_not m) (x_files st)) (map (keep_not m) (x_gone st)) (x_logs st) (x_nc st) (x_open st)
+                            (remove N.eq_dec m (x_marks st)) (x_replaying st) (remove N.eq_dec m (x_taint st))
+                   else st
+  | XCrash => mkx (x_files st) (x_gone st) (x_logs st) (x_nc st) (x_open st) [] true (x_taint st)
+  | XReplayDone => mkx (x_files st) (x_gone st) (x_logs st) (x_nc st) (x_open st) (x_marks st) false (x_taint st)
+  end.
+Definition xinit : xstate := mkx [] [] [] 0 [] [] false [].
+Definition xrun (early clear : bool) (ops : list xop) : xstate := fold_left (xstep early clear) ops xinit.
+Definition x_acked (st : xstate) : list batch := x_gone st ++ concat (x_logs st) ++ x_open st.
+(* what a restart finds: the data files, overlaid with the live log replayed epoch by epoch *)
+Definition x_recovered (st : xstate) : store := over (lww (x_files st)) (lww (concat (x_logs st) ++ x_open st)).
